@@ -28,6 +28,8 @@ for name in sorted(os.listdir(os.path.join(VERIF, "seeded"))):
                      "confirmed": confirm, "checks": {}, "equivalent": True})
         continue
     for seed in seeds:
+        if any(r["caught"] for r in results.values()):
+            break  # later seeds are only spent on changes not caught so far
         scr = tempfile.mkdtemp(prefix="seeded.")
         try:
             shutil.copytree("/repo/src", os.path.join(scr, "src"))
@@ -63,7 +65,8 @@ with open(os.path.join(VERIF, "seeded", "README.md"), "w") as out:
               "baseline tests still pass with the change, the demo fails with it and passes "
               "without). None of these is ever applied to /repo itself; the checks are run "
               "against a scratch copy of /repo/src (`tools/seeded_all.py`, `tools/mutant.sh`).\n\n"
-              f"Result of the *quick* tier of the property's registered check, seeds {seeds}:\n\n"
+              f"Result of the *quick* tier of the property's registered check, seeds {seeds} "
+              "(a later seed is only tried when the earlier ones did not catch the change):\n\n"
               "| change | property | caught (seed: label, runs until verdict) | needs |\n"
               "|---|---|---|---|\n")
     for r in rows:
@@ -75,8 +78,11 @@ with open(os.path.join(VERIF, "seeded", "README.md"), "w") as out:
         out.write(f"| {r['id']} | {r['property']} | {'; '.join(cells) or 'n/a'} | {needs} |\n")
     live = [r for r in rows if not r.get("equivalent")]
     n_caught = sum(1 for r in live if any(c["caught"] for c in r["checks"].values()))
-    n_all = sum(1 for r in live if all(c["caught"] for c in r["checks"].values()))
-    out.write(f"\n{n_caught} of {len(live)} caught by at least one of the seeds, {n_all} by "
-              f"every seed; {len(rows) - len(live)} no longer break the property on the "
-              f"repaired tree (see their row).\n")
+    first = str(seeds[0])
+    n_first = sum(1 for r in live if r["checks"].get(first, {}).get("caught"))
+    out.write(f"\n{n_caught} of {len(live)} caught by at least one of the seeds, {n_first} "
+              f"already by seed {first}; {len(rows) - len(live)} no longer break the property "
+              f"on the repaired tree (see their row). Changes reported as missed under every "
+              f"seed are discussed in DESIGN.md section 10.1 (most of them need inputs outside "
+              f"the stated scope of their property).\n")
 print("done")
